@@ -36,7 +36,7 @@ def grammars(ctx):
             for i, k in enumerate(KINDS):
                 if mask >> i & 1:
                     defs.append(('def', name, None if k == 'plain' else k, ('cmd', 'echo %s_%s' % (name.lower(), k))))
-            for pos in ('top', 'word', 'def1', 'def2', 'opt'):
+            for pos in ('top', 'word', 'def1', 'def2', 'opt', 'twice', 'topword', 'topdef'):
                 ref = ('nt', name)
                 if pos == 'top':
                     stmts = [('call', 'cmd', ('seq', [('lit', 'a', None), ref]))]
@@ -49,6 +49,14 @@ def grammars(ctx):
                     y, z = ctx['rng'].sample(POOL, 2)
                     stmts = [('call', 'cmd', ('nt', y)), ('def', y, None, ('alt', [('lit', 'a', None), ('nt', z)])),
                              ('def', z, None, ('seq', [('lit', 'b', None), ('opt', ref)]))]
+                elif pos == 'twice':      # the same name referenced twice
+                    stmts = [('call', 'cmd', ('seq', [('lit', 'a', None), ref, ('lit', 'b', None), ref]))]
+                elif pos == 'topword':    # at top level and inside a word
+                    stmts = [('call', 'cmd', ('seq', [('lit', 'a', None), ref, ('sub', [('lit', '--k=', None), ref])]))]
+                elif pos == 'topdef':     # directly and through a definition
+                    y = ctx['rng'].choice(POOL)
+                    stmts = [('call', 'cmd', ('seq', [('lit', 'a', None), ref, ('nt', y)])),
+                             ('def', y, None, ('seq', [('lit', 'c', None), ref]))]
                 else:
                     stmts = [('call', 'cmd', ('fb', [('lit', 'a', None), ('many', ref)]))]
                 order = ctx['rng'].random() < 0.5
@@ -140,7 +148,7 @@ def run(ctx, res):
     for key, o in zip(index, outs):
         by[key] = o
     res.rule = ('exhaustive: every subset of {plain,@bash,@fish,@zsh,@pwsh} command definitions x names {PATH,DIRECTORY,FOO} '
-                'x 5 reference positions (top level, inside a word, through one/two definitions, under ||/...) x 4 shells; '
+                'x 8 reference positions (top level, inside a word, through one/two definitions, under ||/..., twice, top+word, direct+through a definition) x 4 shells; '
                 'non-trivial = at least one definition of the name present; thorough adds random mixtures of several names')
     res.exhaustive = True
     nontrivial = set()
